@@ -1,23 +1,25 @@
 #!/usr/bin/env bash
-# usage: confirm_mutation.sh <dir with patch.diff + demo.diff> [worktree]
+# usage: confirm_mutation.sh <dir with patch.diff (or patch_adapted.diff) + demo.diff> [worktree]
 # Confirms in a scratch worktree of /repo HEAD: (1) lib tests with the change: 35 pass / 3 dns fail,
 # (2) demonstration fails with the change, (3) passes without it. Prints one summary line.
 set -u
 d="$1"; wt="${2:-/tmp/mut/confirm_wt}"
+patch="$d/patch.diff"; [ -f "$d/patch_adapted.diff" ] && patch="$d/patch_adapted.diff"
 if [ ! -d "$wt" ]; then
   git -C /repo worktree add -q --detach "$wt" HEAD || exit 3
-  cp -r /repo/target "$wt/target"
+  cp -r /repo/target "$wt/target" 2>/dev/null
 fi
 cd "$wt" || exit 3
 git checkout -q --detach $(git -C /repo rev-parse HEAD) 2>/dev/null
 git checkout -q -- . ; git clean -fdq -e target
 export CARGO_NET_OFFLINE=true
-git apply "$d/patch.diff" || { echo "RESULT $d patch-does-not-apply"; exit 1; }
-git apply "$d/demo.diff" || { echo "RESULT $d demo-does-not-apply"; exit 1; }
-lib=$(timeout 900 cargo test --offline --lib -j 8 2>&1 | grep -E "^test result" | head -1)
-demo_with=$(timeout 600 cargo test --offline --test '*' -j 8 2>&1 | grep -E "^test result" | tr '\n' ' ')
-git apply -R "$d/patch.diff"
-demo_without=$(timeout 600 cargo test --offline --test '*' -j 8 2>&1 | grep -E "^test result" | tr '\n' ' ')
+head=$(git rev-parse --short HEAD)
+git apply "$patch" || { echo "RESULT $d head=$head patch-does-not-apply"; exit 1; }
+git apply "$d/demo.diff" || { echo "RESULT $d head=$head demo-does-not-apply"; git checkout -q -- . ; git clean -fdq -e target; exit 1; }
+lib=$(timeout 900 cargo test --offline --lib -j 6 2>&1 | grep -E "^test result" | head -1)
+demo_with=$(timeout 600 cargo test --offline --test '*' -j 6 2>&1 | grep -E "^test result" | tr '\n' ' ')
+git apply -R "$patch"
+demo_without=$(timeout 600 cargo test --offline --test '*' -j 6 2>&1 | grep -E "^test result" | tr '\n' ' ')
 git checkout -q -- . ; git clean -fdq -e target
 [ -z "$demo_with" ] && demo_with="(no result: hung or failed to build; killed by timeout)"
-echo "RESULT $d | lib(with): $lib | demo(with): $demo_with | demo(without): $demo_without"
+echo "RESULT $d head=$head patch=$(basename $patch) | lib(with): $lib | demo(with): $demo_with | demo(without): $demo_without"
